@@ -236,6 +236,9 @@ def r6_password_verbatim(cx):
             cx.check("derivation-takes-argument-verbatim:" + b.name, ok, site_of(b, bi),
                      "the text handed to PBKDF2 is the function's password argument, untransformed (source: %s)" % (src[0] if src[0] != "call" else "call " + src[1]))
             n += 1
+        else:
+            cx.check("derivation-takes-argument-verbatim:" + b.name, False, site_of(b, bi),
+                     "the text handed to PBKDF2 is the function's password argument, untransformed (the secret is not str::as_bytes of it)")
     # (b) every caller of the two derivation functions passes a stored / parsed password untransformed
     targets = [A.method(prog, "Crypto", "keypair_from_password"), A.method(prog, "Crypto", "generate_keypair")]
     for tgt in targets:
